@@ -226,7 +226,7 @@ fn play_opts(calls: &[Call], rng: &mut Rng, r: &mut Report, rp: &dyn Fn() -> Jso
         }
         if res == Res::Ok {
             match c {
-                Call::Stub(i) if sems[*i].class == MClass::TerminatorFile && sems[*i].opname.as_deref().map(spec::is_block_terminator).unwrap_or(false) => {
+                Call::Stub(i) if matches!(sems[*i].class, MClass::TerminatorFile | MClass::BlockInst) && sems[*i].opname.as_deref().map(spec::is_block_terminator).unwrap_or(false) => {
                     if b.selected_block().is_some() {
                         fail(r, "terminator-leaves-block-open", "a successful terminator call left a block selected".into());
                         return;
